@@ -419,6 +419,86 @@ fn sampled_case(t: &mut Tape, rec: &mut Rec) -> CaseResult {
     Ok(())
 }
 
+
+// ---------------------------------------------------------------------------------------------
+// SEIPDv2: surgery behind the last genuine chunk, plaintext stream on / next to a chunk boundary
+// ---------------------------------------------------------------------------------------------
+
+const TAIL_AEADS: usize = 3;
+const TAIL_CS: [u8; 2] = [0, 1];
+const TAIL_LENS: usize = 9;
+const TAIL_OPS: usize = 20;
+const TAIL_CONS: usize = 4;
+
+fn tail_count() -> u64 {
+    (TAIL_AEADS * TAIL_CS.len() * TAIL_LENS * TAIL_OPS * TAIL_CONS) as u64
+}
+
+fn tail_surgery_case(t: &mut Tape, rec: &mut Rec) -> CaseResult {
+    let mut i = t.u64() as usize;
+    let mut take = |n: usize| {
+        let r = i % n;
+        i /= n;
+        r
+    };
+    let cons_i = take(TAIL_CONS);
+    let op = take(TAIL_OPS);
+    let len_i = take(TAIL_LENS);
+    let cs_octet = TAIL_CS[take(TAIL_CS.len())];
+    let aead = AEADS[take(TAIL_AEADS)];
+    let cs = 1usize << (cs_octet as usize + 6);
+    // length of the encrypted packet stream (literal packet incl. its header): k*cs + d
+    let k = 1 + len_i / 3;
+    let d = [-1isize, 0, 1][len_i % 3];
+    let stream = (k * cs) as isize + d;
+    // literal packet = 1 tag + 1 or 2 length octets + 6 + payload
+    let payload_len = if stream - 8 < 192 { stream - 8 } else { stream - 9 } as usize;
+    let mut cfg = MsgConfig::plain();
+    cfg.enc = Enc::V2(SymmetricKeyAlgorithm::AES128, aead, cs_octet);
+    cfg.seed = [(len_i * 7 + op) as u8; 32];
+    let base = Base::build(cfg, expand(0x7A11 + len_i as u64, payload_len)).map_err(|e| crate::engine::Fail { sig: "C03:base-build-error".into(), detail: e })?;
+    control(&base)?;
+    let body = base.body().to_vec();
+    let n = body.len();
+    let Some((h, _, nc)) = base.v2_layout() else {
+        return fail("C03:harness-layout", "no SEIPDv2 layout");
+    };
+    let cl = cs + 16;
+    let chunk = |j: usize| body[h + j * cl..(h + (j + 1) * cl).min(n - 16)].to_vec();
+    let fin = body[n - 16..].to_vec();
+    let head = body[..n - 16].to_vec();
+    let last = chunk(nc - 1);
+    let junk = |m: usize| expand(0xBAD + op as u64, m);
+    let (mutated, what): (Vec<u8>, String) = match op {
+        0 => ([head.clone(), last.clone(), fin.clone()].concat(), "last chunk duplicated before the final tag".into()),
+        1 => ([head.clone(), last.clone(), last.clone(), fin.clone()].concat(), "last chunk duplicated twice before the final tag".into()),
+        2 => ([head.clone(), chunk(0), fin.clone()].concat(), "first chunk repeated before the final tag".into()),
+        3 => ([head.clone(), fin.clone(), last.clone()].concat(), "last chunk repeated after the final tag".into()),
+        4 => ([head.clone(), fin.clone(), fin.clone()].concat(), "final tag duplicated".into()),
+        5 => ([head.clone(), fin.clone(), last.clone(), fin.clone()].concat(), "last chunk and final tag repeated after the final tag".into()),
+        6 => (head.clone(), "final tag removed".into()),
+        7 => ([head[..head.len() - last.len()].to_vec(), fin.clone()].concat(), "last chunk removed, final tag kept".into()),
+        _ => {
+            let r = [1usize, 15, 16, 17, cs - 1, cs, cs + 1, cs + 15, cs + 16, cs + 17, 2 * cs + 15, 2 * cs + 16][op - 8];
+            ([body.clone(), junk(r)].concat(), format!("{r} bytes appended inside the packet after the final tag"))
+        }
+    };
+    let cons = match cons_i {
+        0 => Consumer::ReadToEnd,
+        1 => Consumer::Fixed(1),
+        2 => Consumer::Fixed(cs),
+        _ => Consumer::Fixed(4096),
+    };
+    rec.label(format!("tail:{}", what.split(' ').take(3).collect::<Vec<_>>().join("-")));
+    rec.label(format!("tail:stream=k*cs{:+}", d));
+    rec.nontrivial((format!("{aead:?}"), cs, stream, op, cons_i));
+    rec.describe(|| format!("SEIPDv2 {aead:?} chunk {cs}: packet stream of {stream} bytes ({nc} chunks) | {what} | consumer {cons:?}"));
+    let bytes = base.reassemble(&mutated, &[]);
+    let a = attempt(&base.cfg, &bytes, &Opener::SessionKey, cons, Mode::Default, Sched::whole());
+    judge(rec, &base, &a, Mode::Default, &what);
+    Ok(())
+}
+
 /// fixed list of small base messages for the exhaustive scope
 fn small_bases(thorough: bool) -> Vec<Base> {
     let mut v = vec![];
@@ -463,13 +543,14 @@ fn small_bases(thorough: bool) -> Vec<Base> {
 }
 
 pub fn run(ctx: &Ctx) {
-    ctx.set_rule("base messages built by rPGP (SEIPDv1 x 11 ciphers, SEIPDv2 x 9 AEAD/cipher pairs x chunk sizes, plaintext lengths around 0..3 chunks / the 8 KiB buffer), SEIPD body extracted and re-framed by the harness' own framer; mutation classes: bit flip, truncation, append inside/after, AEAD chunk drop/dup/swap/rotate/truncation-attack/tag surgery, CFB block surgery, header field substitution (version, cipher, AEAD, chunk size, salt); consumer = read_to_end | fixed | alternating | exact; SEIPDv1 modes default/check-first/streaming; exhaustive group: every single-bit flip and every truncation offset of the listed small messages; non-trivial = container differs from the original; distinct = (config, plaintext length, mutation)");
+    ctx.set_rule("base messages built by rPGP (SEIPDv1 x 11 ciphers, SEIPDv2 x 9 AEAD/cipher pairs x chunk sizes, plaintext lengths around 0..3 chunks / the 8 KiB buffer), SEIPD body extracted and re-framed by the harness' own framer; mutation classes: bit flip, truncation, append inside/after, AEAD chunk drop/dup/swap/rotate/truncation-attack/tag surgery, CFB block surgery, header field substitution (version, cipher, AEAD, chunk size, salt); consumer = read_to_end | fixed | alternating | exact; SEIPDv1 modes default/check-first/streaming; tail-surgery group (enumerated): SEIPDv2 x 3 AEAD modes x chunk 64/128 x encrypted packet stream of k*chunk-1, k*chunk, k*chunk+1 bytes (k = 1..3) x 20 manipulations behind the last genuine chunk (chunk / final-tag duplication, repetition, removal, 1..2*chunk+16 bytes appended inside the packet) x 4 consumers; exhaustive group: every single-bit flip and every truncation offset of the listed small messages; non-trivial = container differs from the original; distinct = (config, plaintext length, mutation)");
     ctx.assume("positive control: the unmodified, re-framed message round-trips (otherwise the case fails as control failure)");
     ctx.assume("forgery probability of the primitives (2^-128 tags, SHA-1 MDC) is not reachable by the generator");
     zoo::warm(&[Kind::Ed25519V4, Kind::Ed25519V6]);
     let thorough = ctx.tier == Tier::Thorough;
     let n = ctx.tier.pick(20_000u64, 400_000);
     ctx.group("sampled-mutations", Source::Random { n, tape_len: 200 }, sampled_case);
+    ctx.group("seipdv2-tail-surgery-at-chunk-boundaries", Source::Indexed { count: tail_count() }, tail_surgery_case);
 
     let bases = small_bases(thorough);
     let offsets: Vec<u64> = {
